@@ -260,6 +260,22 @@ def zst_stream(rng, pid):
                         c.sched = rand_sched(rng, len(pr), 10)
                     cases.append(c)
                     i += 1
+    # a wrapped iterator of zero-sized items (a `Vec<ZST>` reports capacity usize::MAX, `ptr.add` never moves)
+    for L in (1, 3, 5, 8):
+        progs = [[["chunk 2 all", "chunk 2 all", "chunk 2 all", "chunk 3 all", "next"]], [["next"] * (L + 1)], [["chunk 1 all", "next", "chunk 4 all", "next"]],
+                 [["bufnew 2", "bufnext all", "bufnext 1", "bufnext all", "bufnext all", "next"]], [["chunk 2 all", "next"], ["chunk 3 all", "next", "next"]],
+                 [["enumforeach 2"]], [["chunk 2 1", "chunk 2 all", "idsvalues"]]]
+        for pr in progs:
+            for hint in ("exact", "inexact"):
+                c = make_source(rng, "%s-zsti%d" % (pid, i), "iter", L, hint=hint)
+                c.script = ["S0"] * L
+                c.zst = True
+                c.threads = [list(t) for t in pr]
+                c.owner = "drop"
+                if len(pr) > 1:
+                    c.sched = rand_sched(rng, len(pr), 12)
+                cases.append(c)
+                i += 1
     return cases
 
 
